@@ -11,6 +11,12 @@ CLAIMED = {
  'C01': ('Coq proof of the symmetric-delete search (candidate completeness via common deletion variant, exact filter); differential run of the extracted model vs symdel/nearest_neighbor',
          'Theorems C01_* (coq/props/C01.v): for every list of strings over any alphabet and every k the modelled bucket-pairing algorithm returns exactly {(i,j,lev): i<>j, lev<=k}, no pair repeated, duplicates at distance 0, never (i,i); slev is proved to be the optimal edit cost. Unbounded in sizes and k; the tie to nn.py is the correspondence run (exhaustive small alphabets in one call + random clonal repertoires).',
          COMMON_NOTE + 'rapidfuzz Levenshtein.distance, Python set/dict/itertools semantics.', 'DESIGN.md section 4 C01'),
+ 'C02': ('Coq proof: sum c(c-1) over multiplicities = number of ordered coinciding position pairs (cross form: sum of count products), permutation / injective-relabel invariance, row-key join injective under the no-separator guard; pc_n regenerated from stats.py proved equal to the counting definition; exact-fraction differential runs',
+         'Theorems C02_* (coq/props/C02.v): for every list over any type with decidable equality the numerator computed the way pc computes it (unique counts) is the number of ordered pairs of distinct positions holding equal elements, the denominator N(N-1); the two-sample form counts cross pairs; invariance under permutation and injective relabelling; 0 <= num <= den; joined row keys coincide iff rows agree in every column when no cell contains the separator (counter-example without the guard kept visible); the regenerated pc_n equals the counting form on multiplicity vectors.',
+         COMMON_NOTE + 'numpy.unique / intersect1d grouping, str() of cells injective on the stated cell domain, pandas fillna/astype.', 'DESIGN.md section 4 C02'),
+ 'C08': ('Coq proof: row-DP weighted Levenshtein = minimum alignment cost for all weights (attained and minimal against the inductive alignment relation), upper bound wd*|a|+wi*|b| (exact storage guard), condensed-index bijection and loop layout for any metric; differential runs vs rapidfuzz / python-Levenshtein / metric classes / pdist / cdist',
+         'Theorems C08_* (coq/props/C08.v): the executable DP is the optimal edit cost with insertion/deletion roles fixed by the alignment relation (a swap is visible), unit weights give Levenshtein, the value is bounded so no wrap occurs below the stated dtype limits, pdist_loop puts f(x_i,x_j) at m*i+j-(i+2)(i+1)/2 for any f and any collection, cdist_loop at [i][j], calc_pdist_vector is squareform of the self cdist, the index map is a bijection onto 0..m(m-1)/2-1.',
+         COMMON_NOTE + 'rapidfuzz process.cdist result dtype and values (tied by exhaustive small-domain correspondence), scipy squareform(checks=False).', 'DESIGN.md section 4 C08'),
  'C03': ('Coq proof of SymdelDB.lookup and LookupDB.lookup models (edit ball = breadth-first closure, proved exact), history invariance by induction; differential runs incl. database histories',
          'Theorems C03_* (coq/props/C03.v): two-collection symdel and the hash lookup return exactly {(q,r,d): d = lev(query q, ref r) <= k} once each, including q = r and d = 0; the BFS ball holds exactly the strings within k edits; any lookup history leaves later answers equal to a one-shot search.',
          COMMON_NOTE + 'rapidfuzz distances; LookupDB references over the amino-acid alphabet (its documented domain).', 'DESIGN.md section 4 C03'),
